@@ -1217,6 +1217,28 @@ class C11(core.Check):
                     link["pre"] = gen_pre(rng, copy=nsys % 2, rigid=bool(nsys % 4 == 1))
                 c["p"] = {"base": base, "bp": bp, "links": [link]}
                 cases.append(c)
+            # both faces of the source occupied: every constructor that can start from the start face is used there
+            # (start_face passed positionally, as the documented signatures allow) while another shape sits on the end
+            # face - a shape that lands on the wrong face meets the other one (a face owned by three blocks)
+            for base, op, other in [
+                ("Cylinder", "Cylinder.chain", "Cylinder.chain"), ("Cylinder", "Frustum.chain", "Cylinder.chain"),
+                ("Cylinder", "Elbow.chain", "Frustum.chain"), ("Cylinder", "Hemisphere.chain", "Cylinder.chain"),
+                ("ExtrudedRing", "ExtrudedRing.chain", "ExtrudedRing.chain"),
+            ]:  # fmt: skip
+                c = gen_case(rng, "Chain", far=False)
+                c.pop("post", None)
+                links = []
+                for o_, start in ((op, 1), (other, 0)):
+                    link = {"op": o_, "src": 0, "start": start}
+                    if o_ in ("Cylinder.chain", "ExtrudedRing.chain"):
+                        link["L"] = rq(rng, 0.4, 2)
+                    elif o_ == "Frustum.chain":
+                        link.update(L=rq(rng, 0.4, 2), R2=rq(rng, 0.3, 1.5))
+                    elif o_ == "Elbow.chain":
+                        link.update(sweep=rq(rng, 0.25, 1.4), d=rq(rng, 0.6, 2.5), R2=rq(rng, 0.3, 1.2))
+                    links.append(link)
+                c["p"] = {"base": base, "bp": gen_round(rng, base), "links": links}
+                cases.append(c)
         if tier == "thorough":
             # joints beyond the probe tables and beyond the quick tier: 8 and 9 branches against the uniform joint model
             for k in (8, 9, 8, 9):
